@@ -9,16 +9,21 @@ pub mod c03;
 pub mod c04;
 pub mod c05;
 pub mod c06;
+pub mod c07;
 pub mod c08;
 pub mod c09;
 pub mod c10;
 pub mod c11;
 pub mod c12;
 pub mod c13;
+pub mod c14;
+pub mod c15;
 pub mod c16;
+pub mod c17;
 pub mod c18;
 pub mod c19;
 pub mod c19_serde;
+pub mod c20;
 
 pub struct PropInfo {
     pub id: &'static str,
@@ -34,7 +39,7 @@ pub struct PropInfo {
 }
 
 pub fn all() -> Vec<PropInfo> {
-    vec![c01::info(), c02::info(), c03::info(), c04::info(), c05::info(), c06::info(), c08::info(), c09::info(), c10::info(), c11::info(), c12::info(), c13::info(), c16::info(), c18::info(), c19::info()]
+    vec![c01::info(), c02::info(), c03::info(), c04::info(), c05::info(), c06::info(), c07::info(), c08::info(), c09::info(), c10::info(), c11::info(), c12::info(), c13::info(), c14::info(), c15::info(), c16::info(), c17::info(), c18::info(), c19::info(), c20::info()]
 }
 
 pub fn find(id: &str) -> Option<PropInfo> {
